@@ -2,7 +2,7 @@
 \* the rollback writes the activation's own copy of the record back as not activated. That copy was read at the start
 \* of the call: a revoke that completed in between is erased, and a later activation of the revoked code succeeds.
 \* EXPECTED RESULT: TLC reports "Invariant NoActivationAfterDeath is violated". With ResetOnFail = FALSE: no error.
-\*   tlc -workers 8 -config ConnCode_reset.cfg ConnCode.tla
+\*   tlc -workers 8 -config ConnCode_show_reset.cfg ConnCode.tla
 CONSTANTS
   Acts = {"a1", "a2"}
   HasRev = TRUE
@@ -17,6 +17,8 @@ CONSTANTS
   SameAs = {}
   Reclaim = FALSE
   ResetOnFail = TRUE
+  ResetCreate = FALSE
+  RelScope = "fail"
   CanTick = FALSE
   ShortClaim = FALSE
   Emit = FALSE
